@@ -382,6 +382,49 @@ func genC16R(env *core.Env, emit func(core.Case)) {
 				close(stop)
 				wg3.Wait()
 			}
+			// all goroutines released at once on an entry that is absent or has just expired, after the zone
+			// changed: one of them fetches, the others wait for it - and every one of them started after the
+			// expiry, so every one must see the new zone version
+			rs2, _ := ech.NewResolver(srv.URL())
+			for round := 0; round < 12 && rs2 != nil; round++ {
+				ver := 1 + round%2
+				srv.Set(c16Zone(ver, 0))
+				start := make(chan struct{})
+				var wg4 sync.WaitGroup
+				for g := 0; g < workers; g++ {
+					wg4.Add(1)
+					go func() {
+						defer wg4.Done()
+						<-start
+						res, err := rs2.Resolve(context.Background(), "d.example")
+						if err != nil {
+							return
+						}
+						bad := len(res.Address) == 0 || len(res.HTTPS) == 0
+						for _, h := range res.HTTPS {
+							if len(h.ECH) > 0 && int(h.ECH[0]) != ver {
+								bad = true
+							}
+						}
+						for _, ip := range res.Address {
+							if v4 := ip.To4(); v4 != nil && int(v4[1]) != ver {
+								bad = true
+							}
+						}
+						if bad {
+							mu.Lock()
+							w = fmt.Sprintf("round %d: a lookup started after the entry had expired (zone version %d) returned addresses %v and %d HTTPS records of another version", round, ver, res.Address, len(res.HTTPS))
+							mu.Unlock()
+						}
+					}()
+				}
+				close(start)
+				wg4.Wait()
+				clock.mu.Lock()
+				clock.sec += 61
+				clock.mu.Unlock()
+			}
+			srv.Set(c16Zone(1, 0))
 			ech.VerifSetClock(nil)
 		}
 		emit(core.Case{Name: fmt.Sprintf("concurrent/%d", workers), Stream: "concurrent", Key: "concurrent", Sig: fmt.Sprintf("concurrent/%d", workers),
